@@ -554,6 +554,12 @@ func relayLayerCancelCase(t *testing.T, r *Recorder, which string) {
 				bad = fmt.Sprint(p)
 			}
 		}()
+		// a goroutine that waits for a mutex for good stops the bubble's clock, so nothing inside can
+		// time out: end such a run from outside (the check reports the crash with this message)
+		wd := time.AfterFunc(90*time.Second, func() {
+			panic("harness watchdog: a relay-layer case is still running after 90 s of real time; a stream function of the mailbox layer is wedged (waiting for a lock it will never get?)")
+		})
+		defer wd.Stop()
 		synctest.Test(t, func(t *testing.T) {
 			relay := NewFakeRelay()
 			relay.RefuseStreams = true
